@@ -391,6 +391,48 @@ def run_one(run):
                 if bad:
                     run.violate("recovery-after-fault", sigw(wl, bad[0][0], "recovery", {"op": fp[1], "fault": fp[4]}),
                                 f"after {fp[4]} on {fp[0]}.{fp[1]}({fp[2]!r}) and clearing it, to_zarr(overwrite=True) does not round-trip: {bad[0][1]}")
+            # ------------------------------------------------------------- thorough tier: pairs of write faults ---------
+            if os.environ.get("VERIF_TIER_ACTIVE") == "thorough" and len(wpoints) >= 2:
+                for _ in range(min(12, len(wpoints))):
+                    a, b = wpoints[ch.int(len(wpoints), "pair-a")], wpoints[ch.int(len(wpoints), "pair-b")]
+                    if a == b:
+                        continue
+                    u = new_url()
+                    sf.reset([a, b])
+                    raised = None
+                    try:
+                        do_write(wl, u, Sim(ch, graph_shape=False), overwrite=True)
+                    except (HarnessError, InjectedCrash):
+                        raise
+                    except Exception as e:  # noqa: BLE001
+                        raised = e
+                    fired = len(sf.fired)
+                    run.note("executions")
+                    run.note("double_fault_executions")
+                    run.note(f"double_fault_fired_{fired}")
+                    sf.quiesce()
+                    sf.reset()
+                    if raised is None and fired:
+                        try:
+                            bad = compare(wl, do_read(wl, u, Sim(ch, graph_shape=False)))
+                        except (HarnessError, InjectedCrash):
+                            raise
+                        except Exception as e:  # noqa: BLE001
+                            bad = [("unreadable", f"{type(e).__name__}: {e}")]
+                        if bad:
+                            run.violate("write-fault-raises-or-exact", sigw(wl, bad[0][0], "write-fault-pair", {"op": a[1] + "+" + b[1], "fault": a[4] + "+" + b[4]}),
+                                        f"faults {a} and {b}: to_zarr returned normally but the stored data is wrong: {bad[0][1]}")
+                            continue
+                    try:
+                        do_write(wl, u, Sim(ch, graph_shape=False), overwrite=True)
+                        bad = compare(wl, do_read(wl, u, Sim(ch, graph_shape=False)))
+                    except (HarnessError, InjectedCrash):
+                        raise
+                    except Exception as e:  # noqa: BLE001
+                        bad = [("raise", f"{type(e).__name__}: {e} at {tb(e)}")]
+                    if bad:
+                        run.violate("recovery-after-fault", sigw(wl, bad[0][0], "recovery", {"op": a[1] + "+" + b[1], "fault": a[4] + "+" + b[4]}),
+                                    f"after faults {a} and {b} were cleared, to_zarr(overwrite=True) does not round-trip: {bad[0][1]}")
             # ------------------------------------------------------------- read-fault sweep -------------------------
             for fp in rpoints:
                 sf.reset([fp])
